@@ -1,7 +1,16 @@
 //! C14: the scaled value a sketch reports is the one it was created with.
+//!
+//! Stream 3 (`case … manifests`): the consumers "manifests, selection" of the reported value.
+//!   mrow <k> <scaled> <num>          a DNA sketch created with these values, in a signature named r<i>;
+//!                                    answer: the scaled value its manifest record reports
+//!   msel  <k|-> <num|-> <scaled|->   Manifest::select on the Record::from_sig rows -> retained row indices
+//!   mcsel <k|-> <num|-> <scaled|->   Collection::from_sigs(..).select -> retained row indices
+//!   mload <k|-> <num|-> <scaled|->   Collection::select, then sig_for_dataset(i).select per surviving row:
+//!                                    `<row>:<scaled the delivered sketch reports>` (`<row>:none` if nothing is delivered)
 use sourmash::cmd::ComputeParameters;
+use sourmash::collection::Collection;
 use sourmash::encodings::HashFunctions;
-use sourmash::manifest::Record;
+use sourmash::manifest::{Manifest, Record};
 use sourmash::prelude::*;
 use sourmash::selection::Selection;
 use sourmash::signature::Signature;
@@ -94,6 +103,81 @@ fn gen(a: &Args) {
             o.op(&format!("{} {} {} {} {}", op, s, nh, mol, tr));
         }
     }
+    // stream 3: manifests and selection as consumers of the reported value: rows whose scaled is just
+    // below / at / just above the request, multiples, num rows (reported scaled 0), rows with both;
+    // requests carrying ksize + scaled, ksize + num, ksize + num + scaled (what the revindex C API
+    // builds from a template), scaled alone
+    let ncases = if thorough { 6_000 } else { 500 };
+    const TOP: u64 = 1 << 31;
+    for _ in 0..ncases {
+        o.case("manifests");
+        let req = match r.below(4) {
+            0 => *r.pick(&[1u64, 2, 3, 92, 93, 94, 1000, 1001, 2000, 10_000, TOP - 1, TOP]),
+            1 => r.range(1, 3000),
+            _ => r.bits(31).max(1),
+        };
+        let k = *r.pick(&[21u64, 31]);
+        let nrows = r.range(3, 8);
+        let mut nums: Vec<u64> = vec![];
+        for _ in 0..nrows {
+            let kk = if r.chance(1, 4) { 52 - k } else { k };
+            let s = match r.below(9) {
+                0 => req.saturating_sub(1),
+                1 | 2 => req,
+                3 | 4 => req + 1,
+                5 => req.saturating_mul(2),
+                6 => req / 2,
+                7 => *r.pick(&[1u64, 10, 1000, 10_000, TOP]),
+                _ => r.bits(31).max(1),
+            }
+            .min(TOP);
+            let (s, num) = match r.below(8) {
+                0 | 1 => (0, *r.pick(&[1u64, 500])),
+                2 => (s, *r.pick(&[1u64, 500])),
+                _ => (s, 0),
+            };
+            if num != 0 {
+                nums.push(num);
+            }
+            o.op(&format!("mrow {} {} {}", kk, s, num));
+        }
+        let n = if nums.is_empty() || r.chance(1, 4) { *r.pick(&[1u64, 500, 7]) } else { *r.pick(&nums) };
+        let near = |r: &mut Rng| match r.below(4) {
+            0 => req.saturating_sub(1).max(1),
+            1 => (req + 1).min(u32::MAX as u64),
+            _ => req,
+        };
+        for op in ["msel", "mcsel", "mload"] {
+            o.op(&format!("{} {} - {}", op, k, req));
+            o.op(&format!("{} {} - {}", op, 52 - k, near(&mut r)));
+            o.op(&format!("{} {} {} -", op, k, n));
+            o.op(&format!("{} {} 0 {}", op, k, near(&mut r)));
+            o.op(&format!("{} - - {}", op, near(&mut r)));
+        }
+        o.op(&format!("msel {} {} {}", k, n, req));
+        o.op(&format!("msel - {} -", n));
+        o.op(&format!("msel {} - -", k));
+        o.op(&format!("msel - 0 {}", req));
+    }
+}
+
+fn msel_of(ws: &[&str]) -> Selection {
+    let mut sel = Selection::default();
+    if ws[0] != "-" {
+        sel.set_ksize(ws[0].parse().unwrap());
+    }
+    if ws[1] != "-" {
+        sel.set_num(ws[1].parse().unwrap());
+    }
+    if ws[2] != "-" {
+        sel.set_scaled(ws[2].parse().unwrap());
+    }
+    sel
+}
+
+/// `r<i>` -> `<i>`
+fn row_ids<'a, I: IntoIterator<Item = &'a Record>>(rs: I) -> String {
+    show_nats(rs.into_iter().map(|r| r.name()[1..].parse::<u64>().unwrap()))
 }
 
 /// the scaled values every MinHash sketch of a signature reports
@@ -139,7 +223,49 @@ fn sig_with(mh: KmerMinHash) -> Signature {
     sig
 }
 
-fn step(_: &mut (), ws: &[&str]) -> String {
+fn step(st: &mut Vec<Signature>, ws: &[&str]) -> String {
+    match ws[0] {
+        "mrow" => {
+            let n = |i: usize| -> u64 { ws[i].parse().unwrap() };
+            let mh = KmerMinHash::new(n(2), n(1) as u32, HashFunctions::Murmur64Dna, 42, false, n(3) as u32);
+            let mut sig = sig_with(mh);
+            sig.set_name(&format!("r{}", st.len()));
+            let rec = Record::from_sig(&sig, "loc");
+            st.push(sig);
+            return rec[0].scaled().to_string();
+        }
+        "msel" => {
+            let rows: Vec<Record> = st.iter().flat_map(|s| Record::from_sig(s, "loc")).collect();
+            return match Manifest::from(rows).select(&msel_of(&ws[1..])) {
+                Ok(m) => row_ids(m.iter()),
+                Err(e) => format!("err {:?}", e),
+            };
+        }
+        "mcsel" => {
+            let c = Collection::from_sigs(st.clone()).unwrap();
+            return match c.select(&msel_of(&ws[1..])) {
+                Ok(c) => row_ids(c.manifest().iter()),
+                Err(e) => format!("err {:?}", e),
+            };
+        }
+        "mload" => {
+            let sel = msel_of(&ws[1..]);
+            let c = Collection::from_sigs(st.clone()).unwrap().select(&sel).unwrap();
+            let mut out = vec![];
+            for (i, rec) in c.iter() {
+                let id = &rec.name()[1..];
+                out.push(match c.sig_for_dataset(i).and_then(|s| s.select(&sel)) {
+                    Ok(s) => match Signature::from(s).sketches().first() {
+                        Some(Sketch::MinHash(mh)) => format!("{}:{}", id, mh.scaled()),
+                        _ => format!("{}:none", id),
+                    },
+                    Err(e) => format!("{}:err {:?}", id, e),
+                });
+            }
+            return if out.is_empty() { "-".into() } else { out.join(",") };
+        }
+        _ => {}
+    }
     let n = |i: usize| -> u64 { ws[i].parse().unwrap() };
     // optional third word of the consumer ops: the num the sketch carries next to its scaled
     let num: u32 = match ws[0] {
@@ -319,7 +445,7 @@ fn main() {
     let a = args();
     match a.mode.as_str() {
         "gen" => gen(&a),
-        "exec" => exec_loop(|| (), step),
+        "exec" => exec_loop(Vec::new, step),
         _ => panic!("mode"),
     }
 }
